@@ -53,6 +53,17 @@ def workload():
     for rules in ('wayback', 'wayback_uk', 'jsessionid', '', 'wayback_uk,wayback', 'jsessionid,wayback,wayback_uk', None):
         cases.append(('archived-%s' % rules, 'html_token', dict(a_text=arch_a, b_text=arch_b, include='all', url_rules=rules)))
         cases.append(('archived-rev-%s' % rules, 'html_token', dict(a_text=arch_b, b_text=arch_a, include='combined', url_rules=rules)))
+    # versions of one page diffed in a row, as a monitoring job does (v1->v2, v2->v3, the same request again): results
+    # must not depend on a document having been seen just before
+    wrap = '<div class="wrap"><div class="inner"><p>%s</p><ul><li>%s</li><li>two</li></ul></div><section><h2>%s</h2><p>tail %s</p></section></div>'
+    versions = [wrap % ('first para', 'one', 'Title', 'a'), wrap % ('first para changed', 'one', 'Title', 'a'), wrap % ('first para changed', 'one more', 'Title 2', 'b'),
+                wrap % ('other', 'one more', 'Title 2', 'b')]
+    for k in range(len(versions) - 1):
+        for rep_i in range(2):
+            cases.append(('chain-%d-%d' % (k, rep_i), 'html_token', dict(a_text=versions[k], b_text=versions[k + 1], include='all')))
+        cases.append(('chain-links-%d' % k, 'links_json', dict(a_text=versions[k], b_text=versions[k + 1])))
+        cases.append(('chain-text-%d' % k, 'html_text_dmp', dict(a_text=versions[k], b_text=versions[k + 1])))
+    cases.append(('chain-back', 'html_token', dict(a_text=versions[2], b_text=versions[0], include='all')))
     for i, (a, b) in enumerate(link_pairs):
         hdr = headers[i % 3]
         cases.append(('links-json-%d' % i, 'links_json', dict(a_text=a, b_text=b, a_headers=hdr, b_headers=hdr)))
@@ -110,7 +121,13 @@ def main():
                 cid, d, ok = run_case(case)
                 stable = stable and digests.setdefault(cid, d) == d
                 headers_ok = headers_ok and ok
-    print(json.dumps({'digests': digests, 'stable_across_passes': stable, 'headers_unchanged': headers_ok,
+    by_args = {}
+    same_args_ok = True
+    for cid, route, kwargs in cases:
+        key = hashlib.sha256(repr((route, sorted((k, repr(v)) for k, v in kwargs.items()))).encode()).hexdigest()
+        if cid in digests:
+            same_args_ok = same_args_ok and by_args.setdefault(key, digests[cid]) == digests[cid]
+    print(json.dumps({'digests': digests, 'same_args_same_result': same_args_ok, 'styled': sorted(c for c, r, _ in cases if r in ('html_token', 'links')), 'stable_across_passes': stable, 'headers_unchanged': headers_ok,
                       'hashseed': os.environ.get('PYTHONHASHSEED'), 'order': order, 'cases': len(cases)}))
 
 
